@@ -92,8 +92,15 @@ func (c JSONMapCodec) appendKV(data []byte, k string, v any) []byte {
 
 func (c JSONMapCodec) Read(data []byte, ptr unsafe.Pointer, wt plenccore.WireType) (n int, err error) {
 	count, n := plenccore.ReadVarUint(data)
-	if n == 0 {
+	if n == 0 && len(data) == 0 {
 		return 0, nil
+	}
+	if n <= 0 {
+		return 0, fmt.Errorf("bad count in map")
+	}
+	if count > uint64(len(data)-n) {
+		// Each entry needs at least one byte for its length
+		return 0, fmt.Errorf("map count %d exceeds data length", count)
 	}
 	offset := n
 
@@ -105,10 +112,13 @@ func (c JSONMapCodec) Read(data []byte, ptr unsafe.Pointer, wt plenccore.WireTyp
 
 	for ; count > 0; count-- {
 		l, n := plenccore.ReadVarUint(data[offset:])
-		if n < 0 {
+		if n <= 0 {
 			return 0, fmt.Errorf("bad length in map")
 		}
 		offset += n
+		if l > uint64(len(data)-offset) {
+			return 0, fmt.Errorf("map entry length %d exceeds data length", l)
+		}
 		var key string
 		var val any
 
@@ -173,6 +183,13 @@ func (c JSONArrayCodec) append(data []byte, ptr unsafe.Pointer) []byte {
 
 func (c JSONArrayCodec) Read(data []byte, ptr unsafe.Pointer, wt plenccore.WireType) (n int, err error) {
 	count, n := plenccore.ReadVarUint(data)
+	if n < 0 || (n == 0 && len(data) != 0) {
+		return 0, fmt.Errorf("bad count in array")
+	}
+	if count > uint64(len(data)-n) {
+		// Each entry needs at least one byte for its length
+		return 0, fmt.Errorf("array count %d exceeds data length", count)
+	}
 	offset := n
 
 	a := *(*[]any)(ptr)
@@ -183,10 +200,13 @@ func (c JSONArrayCodec) Read(data []byte, ptr unsafe.Pointer, wt plenccore.WireT
 
 	for i := range a {
 		l, n := plenccore.ReadVarUint(data[offset:])
-		if n < 0 {
-			return 0, fmt.Errorf("bad length in map")
+		if n <= 0 {
+			return 0, fmt.Errorf("bad length in array")
 		}
 		offset += n
+		if l > uint64(len(data)-offset) {
+			return 0, fmt.Errorf("array entry length %d exceeds data length", l)
+		}
 
 		n, err := readJSONKV(data[offset:offset+int(l)], nil, &a[i])
 		if err != nil {
@@ -302,12 +322,15 @@ func readJSONKV(data []byte, key *string, val *any) (n int, err error) {
 
 	for offset < len(data) {
 		wt, index, n := plenccore.ReadTag(data[offset:])
+		if n <= 0 {
+			return 0, fmt.Errorf("bad tag in JSON entry")
+		}
 		offset += n
 		switch index {
 		case 1:
 			// When using this for reading arrays we simply don't see this index
 			l, n := plenccore.ReadVarUint(data[offset:])
-			if n < 0 {
+			if n <= 0 || l > uint64(len(data)-offset-n) {
 				return 0, fmt.Errorf("bad length on string field")
 			}
 			offset += n
@@ -319,7 +342,7 @@ func readJSONKV(data []byte, key *string, val *any) (n int, err error) {
 			offset += n
 		case 2:
 			v, n := plenccore.ReadVarUint(data[offset:])
-			if n < 0 {
+			if n <= 0 {
 				return 0, fmt.Errorf("invalid map type field")
 			}
 			jType = jsonType(v)
@@ -328,7 +351,7 @@ func readJSONKV(data []byte, key *string, val *any) (n int, err error) {
 			switch jType {
 			case jsonTypeString:
 				l, n := plenccore.ReadVarUint(data[offset:])
-				if n < 0 {
+				if n <= 0 || l > uint64(len(data)-offset-n) {
 					return 0, fmt.Errorf("bad length on string field")
 				}
 				offset += n
@@ -387,7 +410,7 @@ func readJSONKV(data []byte, key *string, val *any) (n int, err error) {
 
 			case jsonTypeNumber:
 				l, n := plenccore.ReadVarUint(data[offset:])
-				if n < 0 {
+				if n <= 0 || l > uint64(len(data)-offset-n) {
 					return 0, fmt.Errorf("bad length on JSON number field")
 				}
 				offset += n
